@@ -1,7 +1,11 @@
 ------------------------ MODULE FileFormatPlaceTrace ------------------------
 (* C10, code -> model: outputs of the real place / hash / mappedHeader        *)
 (* recorded by the harness (one JSON object per line); TLC decides whether    *)
-(* each is what FileFormat.tla demands.                                       *)
+(* each is what FileFormat.tla demands: for place the relation PlaceRel (any   *)
+(* allocator that respects the layout is accepted; equality with the            *)
+(* documented allocator Place is checked by the vector replay and a difference  *)
+(* there is a model divergence, not a violation), for hash and header the       *)
+(* value fixed by the format.                                                   *)
 (*   {kind:"place", h, limit, ns:[..], starts:[..], ends:[..]}                *)
 (*   {kind:"hash", s:[bytes], b}      {kind:"hdr", m, h}  (h = -1: refused)   *)
 EXTENDS FileFormat, Json, TLC
@@ -12,7 +16,7 @@ Next == l <= Len(Trace) /\ l' = l + 1
 Explained(r) ==
     CASE r.kind = "place" ->
            /\ Len(r.starts) = Len(r.ns) /\ Len(r.ends) = Len(r.ns)
-           /\ \A i \in DOMAIN r.ns : <<r.starts[i], r.ends[i]>> = Place(r.h, r.limit, r.ns[i])
+           /\ \A i \in DOMAIN r.ns : PlaceRel(r.h, r.limit, r.ns[i], r.starts[i], r.ends[i])
       [] r.kind = "hash"  -> r.b = Hash(r.s)
       [] r.kind = "hdr"   -> r.h = IF r.m <= MaxMeta THEN HeaderLen(r.m) ELSE -1
       [] OTHER -> FALSE
